@@ -405,6 +405,25 @@ def z_r4_conversion(p: Project, rep: Report, utc_label=False):
             pcfg_ = ppl.cfg
             lookups = [n_ for n_ in pcfg_.nodes if n_.stmt is not None and n_.kind not in ("join", "handlers") and any(isinstance(x, ast.Subscript) and isinstance(x.ctx, ast.Load) and text(x.value).endswith("TZS") for e_ in n_.exprs() for x in ast.walk(e_))]
             bad_ = None
+            bad_range = None
+            other_raiser = None
+            # it must be int() that failed: a try whose handler consults the zone table must not guard another call that
+            # raises ValueError itself (a range check would send a PARSED, out-of-range offset to the zone table)
+            for tr_ in [x for x in ast.walk(pfn) if isinstance(x, ast.Try)]:
+                if not any(isinstance(x, ast.Subscript) and isinstance(x.ctx, ast.Load) and text(x.value).endswith("TZS") for h_ in tr_.handlers for x in ast.walk(h_)):
+                    continue
+                for call_ in [x for st_ in tr_.body for x in ast.walk(st_) if isinstance(x, ast.Call)]:
+                    d_ = dotted(call_.func) or ""
+                    if d_ == "int":
+                        continue
+                    tgt_ = None
+                    if d_.startswith("utils.") and p.has_binding("ofxtools.utils", d_.split(".", 1)[1]):
+                        tgt_ = p.resolve("ofxtools.utils", d_.split(".", 1)[1])
+                    elif d_.startswith("self."):
+                        _c, tgt_ = dt.find_method(d_.split(".", 1)[1])
+                    node_ = getattr(tgt_, "node", tgt_)
+                    if isinstance(node_, ast.FunctionDef) and any(isinstance(r_, ast.Raise) and r_.exc is not None and "ValueError" in text(r_.exc) for r_ in ast.walk(node_)):
+                        other_raiser = d_
             seen_ = 0
             for ln in lookups:
                 for q in ppl:
@@ -416,7 +435,11 @@ def z_r4_conversion(p: Project, rep: Report, utc_label=False):
                     is_none = any(_PT4.simple_conds(cb).get(a) is True for a in _PT4.simple_conds(cb) if a.endswith(" is None") and "hour" in a)
                     if not failed and not is_none:
                         bad_ = _PT4.simple_conds(cb)
-            if seen_:
+                    elif failed and other_raiser is not None and not is_none:
+                        bad_range = other_raiser
+            if seen_ and bad_ is None and bad_range is not None:
+                rep.check("Z-R4", "parse_gmt_offset:zone-table-only-when-hours-unparsable", False, f"the statement whose ValueError sends the reader to the zone-name table also calls {bad_range}(), which raises ValueError itself (range check): an offset that WAS parsed but is out of range ([+15:EST]) is silently replaced by the zone table's value instead of being rejected", tloc(p, pfn0))
+            elif seen_:
                 rep.check("Z-R4", "parse_gmt_offset:zone-table-only-when-hours-unparsable", bad_ is None, f"the zone-name table is consulted on a path where the offset hours were parsed (taken when {bad_}): a text such as [0:EST] is read with EST's offset instead of 0 - the name is only a label" if bad_ is not None else "", tloc(p, pfn0))
         rps, _ = return_paths(pfn, expander=Expander(pfn))
         for pth, rtxt, sc in rps:
